@@ -91,6 +91,19 @@ CLAIMED = {
         "technique": "abstract interpretation (zones over MIR locals, field terms and lengths; widening; trace partitioning; "
                      "per-variant callee summaries; call-site checked preconditions) + call-graph reachability + data tables",
     },
+    "C25": {
+        "level": "Static site-by-site decision of panic-freedom of the import paths: every potentially panicking MIR terminator "
+                 "reachable from load_from_xlsx(_bytes), load_from_icalc, Model::from_workbook and Model::from_bytes in "
+                 "both crates is discharged by the zone abstract interpretation, by an enumerated guard idiom, or listed as "
+                 "assumed with its reason.",
+        "note": "7 of 154 sites are ASSUMED with reasons in the evidence. 14 genuine import panics found by this inventory were "
+                "repaired in /repo (missing style sections / sheetData, localSheetId, rgb slicing, empty comment text, "
+                "relationship paths, missing relationship ids, empty workbook, table ref, style ids, numFmtId, fixed "
+                "signatures). Not decided: third-party decoders (zip, roxmltree, bitcode), termination and memory bounds, "
+                "recursion depth. " + TRUST,
+        "technique": "abstract interpretation (zones; widening; trace partitioning; callee summaries) over MIR + call-graph "
+                     "reachability + dominance-checked guard idioms",
+    },
     "C12": {
         "level": "Static decision of the structure of insertion: spill reset dominates every relocation, array-formula pre-check dominates "
                  "the first persistent write with no explicit error after it, formulas/links/conditional formats displaced together, "
